@@ -2,7 +2,7 @@
 
     cmd     ::= m K | t | f | p | b N | c N | r N | R | x N | X | s O B | l F | k V L
               | { clist | ( clist | i clist clist NELSES else* | w U clist clist | o A N clist
-              | a NARMS arm* | d F cmd
+              | a NARMS arm* | d F cmd | v N | V | > K cmd
     else    ::= 1 clist clist | 0 clist
     arm     ::= M P 1 clist | M P 0            (M: pattern matches; P: 0 ;;  1 ;&  2 ;;& )
     clist   ::= N andor* ;  andor ::= pipeline N (ISAND pipeline)* ;  pipeline ::= BANG N cmd*
@@ -85,6 +85,11 @@ Section Dec.
             Some (For a n b, r3))))
         else if is_tok "a" t then
           dbind (dec_num r) (fun n r1 => dbind (dec_many dec_arm n r1) (fun arms r2 => Some (Case arms, r2)))
+        else if is_tok "v" t then dbind (dec_num r) (fun k r1 => Some (Leaf (LAssign (Some k)), r1))
+        else if is_tok "V" t then Some (Leaf (LAssign None), r)
+        else if is_tok ">" t then
+          dbind (dec_num r) (fun k r1 => dbind (dcmd r1) (fun c r2 =>
+            Some (Redir (match k with 0 => RIn | 1 => RErrNull | 2 => RErrOut | _ => RHere end) c, r2)))
         else if is_tok "d" t then
           dbind (dec_num r) (fun f r1 => dbind (dcmd r1) (fun body r2 => Some (FunDef f body, r2)))
         else None
